@@ -329,6 +329,9 @@ func (g *routerGen) segment(opt bool, kindBias int) *Sx {
 
 func (g *routerGen) route(staticOnly bool) *Sx {
 	rng := g.rng
+	if rng.Intn(40) == 0 { // "/?": an optional empty segment, both forms are "/"
+		return T("route", T("seg", B(true)))
+	}
 	n := 1 + rng.Intn(4)
 	var segs []*Sx
 	for i := 0; i < n; i++ {
